@@ -243,9 +243,16 @@ def lengthen(d, v):
     return v + fill * (d.mx + 1 - n)
 
 
-def outside_codes(d, icvn):
+def outside_codes(d, icvn, earlier=None, rnd=None):
+    """a value outside the element's code list; when possible (every other time) one that occurred EARLIER in the same
+    document as a valid code of another element with the same data element number"""
     _, codesets = tables()
     ext = codesets.get(d.ext, ()) if d.ext is not None else ()
+    if earlier and rnd is not None and rnd.random() < 0.6:
+        pool = sorted(v for v in earlier.get(d.data_ele, ()) if v not in d.codeset and v not in ext and d.mn <= len(v) <= d.mx
+                      and (d.regex is None or re.search(d.regex, v)))
+        if pool:
+            return rnd.choice(pool)
     for L in range(max(d.mn, 1), d.mx + 1):
         for ch in ('Z', 'Q', '9', '7', 'X'):
             v = ch * L
@@ -265,7 +272,16 @@ def wrong_class(d, v, icvn):
     return None
 
 
-def bad_date(v):
+IMPOSSIBLE_MD = ['1301', '0001', '0100', '0132', '0230', '0431', '0631', '0931', '1131', '1232', '0229']
+
+
+def bad_date(v, rnd=None):
+    if re.fullmatch(r'\d{8}', v) and rnd is not None:
+        md = rnd.choice(IMPOSSIBLE_MD)
+        return ('2023' if md == '0229' else v[:4]) + md
+    if re.fullmatch(r'\d{8}-\d{8}', v) and rnd is not None:
+        md = rnd.choice(IMPOSSIBLE_MD)
+        return v[:9] + ('2023' if md == '0229' else v[9:13]) + md
     if re.fullmatch(r'\d{8}', v):
         return v[:4] + '13' + v[6:]
     if re.fullmatch(r'\d{6}', v):
@@ -308,6 +324,35 @@ def is_key_position(node, sid, i, j):
     return False
 
 
+def earlier_codes(doc, si):
+    """{data element number: values carried by coded elements of the segments before si}"""
+    cache = doc.__dict__.setdefault('_earlier', {})
+    if si in cache:
+        return cache[si]
+    out = {}
+    for k in range(si):
+        node = doc.nodes[k]
+        if node is None:
+            continue
+        try:
+            sid, elems = parse_seg(doc.texts[k])
+            defs = seg_defs(node, doc.entry['map_file'])
+        except Exception:
+            continue
+        for i, dd in enumerate(defs):
+            if i >= len(elems):
+                break
+            if dd[0] == 'e':
+                pairs = [(dd[1], elems[i][0] if elems[i] else '')]
+            else:
+                pairs = [(kd, elems[i][j] if j < len(elems[i]) else '') for j, kd in enumerate(dd[2])]
+            for d, v in pairs:
+                if v and (d.codes or d.ext is not None):
+                    out.setdefault(d.data_ele, set()).add(v)
+    cache[si] = out
+    return out
+
+
 def element_candidates(doc, si, rnd):
     """yield (kind, ele_pos, sub_pos, new_elems, primary item) for body segment si"""
     node = doc.nodes[si]
@@ -326,14 +371,14 @@ def element_candidates(doc, si, rnd):
             if d.mn >= 2:
                 yield 'too-short', pos, sub, v[:d.mn - 1], '4'
             if d.codes or d.ext is not None:
-                nv = outside_codes(d, icvn)
+                nv = outside_codes(d, icvn, earlier_codes(doc, si), rnd)
                 if nv is not None:
                     yield 'code-list', pos, sub, nv, '7'
             nv = wrong_class(d, v, icvn)
             if nv is not None:
                 yield 'char-class', pos, sub, nv, '6'
             if d.ty in DATE_TYPES or any(t in DATE_TYPES for t in tl):
-                nv = bad_date(v)
+                nv = bad_date(v, rnd)
                 if nv is not None:
                     yield 'bad-date', pos, sub, nv, '8'
             if d.ty == 'TM' or 'TM' in tl:
